@@ -368,3 +368,43 @@ func CapState(p []byte) uint32 {
 	}
 	return 0
 }
+
+func seqAt(marks []simnet.Mark, end int) int64 {
+	for _, m := range marks {
+		if m.Off >= end {
+			return m.Seq
+		}
+	}
+	return 1 << 62
+}
+
+// EarlyReplies counts, on the connection whose dialer side is cc, the calls
+// whose reply had been read by the caller's endpoint before the Write that
+// carried the call returned ("a reply that arrives before the send operation
+// has even returned").
+func EarlyReplies(cc *simnet.Conn) int {
+	c2s, _ := cc.Sent()
+	s2c, _ := cc.Peer().Sent()
+	rets := cc.WriteReturns()
+	reads := cc.ReadMarks()
+	reqs, _, _ := ref.ParseStream(c2s)
+	resps, _, _ := ref.ParseStream(s2c)
+	replyRead := map[uint32]int64{}
+	for _, f := range resps {
+		if f.Type == ref.Reply || f.Type == ref.Error {
+			if _, ok := replyRead[f.ID]; !ok {
+				replyRead[f.ID] = seqAt(reads, f.End)
+			}
+		}
+	}
+	n := 0
+	for _, f := range reqs {
+		if f.Type != ref.Call {
+			continue
+		}
+		if r, ok := replyRead[f.ID]; ok && r < seqAt(rets, f.End) {
+			n++
+		}
+	}
+	return n
+}
